@@ -67,6 +67,7 @@ def run_mode(spec, parallel, PIDS):
             s = json.loads(json.dumps(spec['spec']))
             for p in s['procs']:
                 p['parallel'] = bool(parallel and p['pid'] in spec['parallel'])
+            s['parallel_steps'] = bool(parallel and spec.get('parallel_steps'))
             e = sched.build(s, emitter={'type': 'timeseries'})
             calls = s['calls']
         else:
